@@ -1534,6 +1534,45 @@ func (c *Check) fixedC12() []*plan.Plan {
 			out = append(out, p)
 		}
 	}
+	// rotated lockstep: three callers, strict round robin at every yield point, each working through the same
+	// pages in a rotated order — at any moment the callers are in the same code on DIFFERENT pages, so
+	// whatever process-wide state the library keeps per "last" or "current" item sees values interleave
+	for v, set := range [][]gen.GenDoc{gen.EmbedPages(3), c.corpus(4)[1:4], gen.EmbedPages(3), gen.EmbedPages(3)} {
+		p := c.newPlan("rotated-lockstep", run, uint64(v), "race")
+		run++
+		for i, d := range set {
+			if i == 0 {
+				c.noteDoc(d)
+			}
+			id := fmt.Sprintf("d%d", i)
+			p.Docs = append(p.Docs, plan.NewDoc(id, d.Bytes, d.Origin))
+			u := d.URL
+			if u == "" {
+				u = "http://example.com/story/page/2"
+			}
+			p.Options = append(p.Options, optWithURL("o"+id, u, uint(i%2), 0))
+		}
+		for t := 0; t < 3; t++ {
+			var ops []plan.Op
+			for i := 0; i < len(set); i++ {
+				di := (t + i) % len(set)
+				tid := fmt.Sprintf("t%d_%d", t, di)
+				p.Trees = append(p.Trees, plan.Tree{ID: tid, Doc: fmt.Sprintf("d%d", di), Root: "document"})
+				ops = append(ops, plan.Op{Op: "Apply", Tree: tid, Opt: fmt.Sprintf("od%d", di)})
+			}
+			p.Tasks = append(p.Tasks, ops)
+		}
+		p.Schedule = plan.Schedule{Gaps: [][2]int{{1, 1}, {1, 2}, {1, 0}}, After: "cycle"}
+		if v >= 1 {
+			// irregular turns of one to three yield points, still round robin
+			r := gen.NewRand(uint64(0x707a + v))
+			p.Schedule = plan.Schedule{After: "cycle"}
+			for i := 0; i < 397; i++ {
+				p.Schedule.Gaps = append(p.Schedule.Gaps, [2]int{1 + r.Intn(3), (i + 1) % 3})
+			}
+		}
+		out = append(out, p)
+	}
 	// every shape of option value (URL variants incl. relative, opaque and odd ones, both algorithms and
 	// out-of-range ones, skip, all flag sets, nil) through two concurrent callers, private values and shared ones
 	{
